@@ -218,6 +218,11 @@ func VP_C07_huge() {
 	vp.Assume(id < 128)
 	data := vp.Noise(n)
 	data[0], data[n-1] = vp.Byte(), vp.Byte()
+	if k >= 4 && vp.Choice(2) == 1 { // (the two sizes just below 2 MiB: real deflate exceeds 1000:1 there)
+		// the other extreme: a run of one byte, which deflate shrinks about a
+		// thousandfold (the model codec has a compact form for such runs)
+		data = bytes.Repeat([]byte{0x41}, n)
+	}
 	t := []int{-1, 0, 256}[vp.Choice(3)]
 	p := Packet{ID: id, Data: data}
 	var w bytes.Buffer
